@@ -91,12 +91,13 @@ static const char *parse_integer(const char *buf, size_t len, uint64_t *value, i
     sign = *buf == '-';
     buf += sign;
     while (buf != end && *buf >= '0' && *buf <= '9') {
-        x0 = x;
-        x = x * 10 + (uint64_t)(*buf - '0');
-        if (x0 > x) {
+        x0 = (uint64_t)(*buf - '0');
+        /* x * 10 + x0 must not exceed UINT64_MAX; comparing after the wrap misses most overflows. */
+        if (x > (UINT64_MAX - x0) / 10) {
             *status = sign ? PARSE_INTEGER_UNDERFLOW : PARSE_INTEGER_OVERFLOW;
             return 0;
         }
+        x = x * 10 + x0;
         ++buf;
     }
     if (buf == k) {
